@@ -18,6 +18,9 @@ import FwdVerif.Driver.H2
 import FwdVerif.Driver.C13
 import FwdVerif.Driver.C12
 import FwdVerif.Driver.C11
+import FwdVerif.Driver.C04
+import FwdVerif.Driver.C05
+import FwdVerif.Driver.C06
 
 open FwdVerif
 
@@ -40,6 +43,9 @@ def dispatch (line : String) : String :=
   | "C13" :: rest => C13.handle rest
   | "C12" :: rest => C12.handle rest
   | "C11" :: rest => C11.handle rest
+  | "C04" :: rest => C04.handle rest
+  | "C05" :: rest => C05.handle rest
+  | "C06" :: rest => C06.handle rest
   | ["ping"] => "pong"
   | _ => "bad-op"
 
